@@ -90,6 +90,21 @@ func (g *gen) num(d int) *Node { // int or float expression
 	}
 	switch g.r.Intn(12) {
 	case 0, 1, 2, 3:
+		if g.r.Intn(12) == 0 {
+			// integer powers between 2^53 and 2^63, where a float64 no longer holds every integer
+			base := int64(2 + g.r.Intn(14))
+			lo := int(math.Ceil(53 / math.Log2(float64(base))))
+			hi := int(math.Floor(62.9 / math.Log2(float64(base))))
+			if hi < lo {
+				hi = lo
+			}
+			e := int64(lo + g.r.Intn(hi-lo+1))
+			var b *Node = I(base)
+			if g.r.Intn(3) == 0 {
+				b = &Node{K: KUnary, S: "-", Kids: []*Node{I(base)}}
+			}
+			return &Node{K: KBin, S: g.pick("**", "^"), Kids: []*Node{b, I(e)}}
+		}
 		return &Node{K: KBin, S: g.pick("+", "-", "*", "/", "%", "**", "^"), Kids: []*Node{g.num(d - 1), g.num(d - 1)}}
 	case 4:
 		return &Node{K: KUnary, S: g.pick("-", "+"), Kids: []*Node{g.num(d - 1)}}
